@@ -52,6 +52,7 @@ import NxsModel.Gen.Comm
 import NxsModel.Route
 import NxsModel.Lemmas.ReasmRun
 import NxsModel.Lemmas.SerialLawful
+import NxsModel.Lemmas.R7Reasm
 namespace Nxs.C03
 open Nxs
 open Nxs.Serial (Hdr Frame)
@@ -491,5 +492,139 @@ theorem recv_loop_shape :
     Gen.Comm.hdrReturnsOnEmptyRead = true ∧ Gen.Comm.hdrKeepsShortCandidate = true ∧
     Gen.Comm.hdrDropsOneOnBadHeader = true ∧ Gen.Comm.hdrDropsAllWithoutSof = true ∧
     Gen.Comm.readFrameShape = true := by decide
+
+/-! ### round 7: disjoint windows ("exactly once"), byte budget, the carry-over as a streaming state -/
+
+/-- "each delivered exactly once, nothing that is not a valid frame": for EVERY byte string the delivered
+    frames are the decodings of pairwise DISJOINT windows of the stream, in stream order —
+    `d = gap₁ ++ w₁ ++ … ++ gapₙ ++ wₙ ++ tail`, `frameDecode wᵢ = .ok (the i-th delivered frame)`
+    (`Reasm.Windows`, Lemmas/R7Reasm.lean).  Strengthens `only_valid` (one window per frame, possibly
+    overlapping): no byte of the stream is part of two delivered frames, so no frame is delivered twice. -/
+theorem delivered_disjoint_windows (c : Codec) (hc : LawfulCodec c) (d : Bytes) :
+    Reasm.Windows c d (Reasm.scan c d) :=
+  Reasm.scan_windows hc d
+
+/-- the same for the receive machine under any chunking, empty reads included -/
+theorem delivered_disjoint_windows_run (c : Codec) (hc : LawfulCodec c) (chunks : List Bytes) :
+    Reasm.Windows c chunks.flatten (Reasm.run c chunks) := by
+  rw [run_eq_scan c hc]; exact Reasm.scan_windows hc _
+
+/-- byte budget: the payloads of all delivered frames plus the framing overhead (header + footer) of each
+    fit in the bytes received — the receiver cannot deliver more than it was sent -/
+theorem delivered_byte_budget (c : Codec) (hc : LawfulCodec c) (chunks : List Bytes) :
+    ((Reasm.run c chunks).map (fun fr => fr.data.length + c.hdrLen + c.footLen)).sum ≤ chunks.flatten.length :=
+  (delivered_disjoint_windows_run c hc chunks).budget hc
+
+/-- hence at most `received bytes / (header + footer)` frames are delivered -/
+theorem delivered_count_bound (c : Codec) (hc : LawfulCodec c) (chunks : List Bytes) :
+    (Reasm.run c chunks).length * (c.hdrLen + c.footLen) ≤ chunks.flatten.length :=
+  (delivered_disjoint_windows_run c hc chunks).count_le hc
+
+/-- serial codec: 6 bytes of framing per delivered frame -/
+theorem serial_byte_budget (chunks : List Bytes) :
+    ((Reasm.run Serial.codec chunks).map (fun fr => fr.data.length + 6)).sum ≤ chunks.flatten.length := by
+  have := delivered_byte_budget _ Serial.codec_lawful chunks
+  have e : (fun fr : Frame => fr.data.length + Serial.codec.hdrLen + Serial.codec.footLen) =
+      (fun fr : Frame => fr.data.length + 6) := by
+    funext fr
+    show fr.data.length + 4 + 2 = fr.data.length + 6
+    rfl
+  rw [e] at this
+  exact this
+
+/-- the carry-over is a streaming state: what is held back after `d ++ e` is computed from what was held back
+    after `d` and the new bytes `e` alone (with `scan_resume`: the pair (held back, delivered) is a fold) -/
+theorem rest_resume (c : Codec) (hc : LawfulCodec c) (d e : Bytes) :
+    Reasm.scanRest c (d ++ e) = Reasm.scanRest c (Reasm.scanRest c d ++ e) :=
+  Reasm.scanRest_resume hc d e
+
+/-- what is held back is stable: scanning it again delivers nothing and holds back the same bytes -/
+theorem rest_stable (c : Codec) (hc : LawfulCodec c) (d : Bytes) :
+    Reasm.scan c (Reasm.scanRest c d) = [] ∧ Reasm.scanRest c (Reasm.scanRest c d) = Reasm.scanRest c d :=
+  ⟨Reasm.scan_scanRest hc d, Reasm.scanRest_idem hc d⟩
+
+/-- compositionality over reads: the receive machine delivers, for every script of reads, what the incremental
+    receiver `Reasm.scanFold` delivers — per read: scan (held back ++ read), append the frames, hold back
+    `scanRest` — and that receiver ends holding back `scanRest` of the concatenation -/
+theorem incremental_receiver (c : Codec) (hc : LawfulCodec c) (chunks : List Bytes) :
+    Reasm.run c chunks = (Reasm.scanFold c chunks).2 ∧
+      (Reasm.scanFold c chunks).1 = Reasm.scanRest c chunks.flatten := by
+  rw [Reasm.scanFold_eq hc, run_eq_scan c hc]
+  exact ⟨rfl, rfl⟩
+
+/-- non-vacuity: noise, a frame, a cut-off header; then the rest of that second frame in a later read -/
+example : Reasm.scanFold Serial.codec [[0x00, 0x13] ++ exFrame ++ [0x55, 0x07], [0x00, 0x05, 0x01, 0x88], [], [0x9c, 0xaa]] =
+    ([], [⟨5, [0x01]⟩, ⟨5, [0x01]⟩]) := by decide +kernel
+example : Reasm.scanFold Serial.codec [[0x00, 0x13] ++ exFrame ++ [0x55, 0x07], [0x00, 0x05]] =
+    ([0x55, 0x07, 0x00, 0x05], [⟨5, [0x01]⟩]) := by decide +kernel
+/-- two delivered frames = two disjoint windows with a gap in front of each (budget: 2·(1 + 6) ≤ 17) -/
+example : Reasm.Windows Serial.codec ([0x00, 0x55] ++ exFrame ++ [0xaa] ++ exFrame) [⟨5, [0x01]⟩, ⟨5, [0x01]⟩] :=
+  Reasm.Windows.cons [0x00, 0x55] exFrame _ _ _ (by decide +kernel)
+    (Reasm.Windows.cons [0xaa] exFrame [] _ _ (by decide +kernel) (Reasm.Windows.nil []))
+
+/-- cross-layer (C01 ∘ C03): ANY sequence of frames emitted by `frame_create` (ids 0..8, payloads that fit),
+    each preceded by arbitrary line noise without a start byte and followed by such noise at the end, cut into
+    reads in ANY way (empty reads included), is delivered by the receive machine as exactly the (id, payload)
+    pairs that were framed — each once, in order, nothing else -/
+theorem created_stream_delivered (items : List (Bytes × Nat × Bytes)) (tail : Bytes) (chunks : List Bytes)
+    (hit : ∀ x ∈ items, (∀ b ∈ x.1, b ≠ 0x55) ∧ x.2.1 ≤ 8 ∧ x.2.2.length ≤ 65529)
+    (ht : ∀ b ∈ tail, b ≠ 0x55)
+    (hch : chunks.flatten = (items.map (fun x => x.1 ++ Spec.wire x.2.1 x.2.2)).flatten ++ tail) :
+    Reasm.run Serial.codec chunks = items.map (fun x => (⟨x.2.1, x.2.2⟩ : Frame)) := by
+  rw [serial_run_eq_scan, hch]
+  clear hch
+  induction items with
+  | nil => exact Reasm.scan_nosof Serial.codec_lawful tail ht
+  | cons x xs ih =>
+    obtain ⟨h1, h2, h3⟩ := hit x (by simp)
+    have ih' := ih (fun y hy => hit y (by simp [hy]))
+    simp only [List.map_cons, List.flatten_cons, List.append_assoc]
+    rw [← List.append_assoc x.1]
+    rw [created_delivered _ Serial.codec_lawful x.2.1 x.2.2 _ x.1 _
+      (Serial.frameCreate_eq x.2.1 x.2.2 h3 (by omega)) h2 h1, ih']
+
+example : Reasm.run Serial.codec [[0x00, 0x55, 0x07], [], [0x00, 0x05, 0x01, 0x88, 0x9c, 0xaa, 0x55, 0x06, 0x00], [0x02, 0x5b, 0x9c, 0x01]] =
+    [⟨5, [0x01]⟩, ⟨2, []⟩] := by decide +kernel
+
+/-- bound on the carry-over buffer of the receive MACHINE (not of the specification): whenever the link is quiet
+    and an invocation of the receive-thread body delivers nothing and leaves `_prev_read` unchanged — the state
+    in which `Reasm.runLoop` stops, with the fuel it uses — `_prev_read` is shorter than a header or is a
+    decodable header still waiting for its declared length -/
+theorem machine_at_rest (c : Codec) (hc : LawfulCodec c) (buf : Bytes)
+    (hq : Reasm.readFrame c (Reasm.fuelFor buf []) buf [] = (none, buf, [])) :
+    buf.length < c.hdrLen ∨ ∃ h, c.hdrDecode buf = .ok h ∧ buf.length < h.flen :=
+  Reasm.quiescent_buffer hc (buf.length + Reasm.scriptSize [] + 1) buf hq
+
+/-- serial codec: at rest the client holds back fewer than 65535 bytes -/
+theorem serial_machine_at_rest (buf : Bytes)
+    (hq : Reasm.readFrame Serial.codec (Reasm.fuelFor buf []) buf [] = (none, buf, [])) :
+    buf.length < 65535 := by
+  rcases machine_at_rest _ Serial.codec_lawful buf hq with h | ⟨h, hd, hl⟩
+  · have : Serial.codec.hdrLen = 4 := rfl
+    omega
+  · have := serial_hdr_flen_le _ h hd
+    omega
+
+/-- non-vacuity: a cut-off frame (10 bytes declared, 5 there) is a state of rest; a complete frame is not -/
+example : Reasm.readFrame Serial.codec (Reasm.fuelFor [0x55, 0x0a, 0x00, 0x04, 0x00] []) [0x55, 0x0a, 0x00, 0x04, 0x00] [] =
+    (none, [0x55, 0x0a, 0x00, 0x04, 0x00], []) := by decide +kernel
+example : Reasm.readFrame Serial.codec (Reasm.fuelFor exFrame []) exFrame [] = (some ⟨5, [0x01]⟩, [], []) := by
+  decide +kernel
+
+/-- full accounting of the received bytes: the stream is `gap₁ ++ w₁ ++ … ++ gapₙ ++ wₙ ++ junk ++ scanRest d` with
+    `wᵢ` decoding to the i-th delivered frame (`Reasm.WindowsR`) — every byte is in exactly ONE delivered frame, or was
+    dropped, or is still held back; hence payloads + framing of everything delivered + the bytes held back never
+    exceed the bytes received, under any chunking -/
+theorem received_bytes_accounted (c : Codec) (hc : LawfulCodec c) (chunks : List Bytes) :
+    Reasm.WindowsR c chunks.flatten (Reasm.run c chunks) (Reasm.scanRest c chunks.flatten) ∧
+    ((Reasm.run c chunks).map (fun fr => fr.data.length + c.hdrLen + c.footLen)).sum +
+      (Reasm.scanRest c chunks.flatten).length ≤ chunks.flatten.length := by
+  rw [run_eq_scan c hc]
+  exact ⟨Reasm.scan_windowsR hc _, (Reasm.scan_windowsR hc _).budget hc⟩
+
+/-- non-vacuity: 2 dropped bytes, a delivered frame (7), 1 dropped byte, 4 held back: 14 bytes -/
+example : Reasm.scan Serial.codec ([0x00, 0x13] ++ exFrame ++ [0xaa] ++ [0x55, 0x07, 0x00, 0x05]) = [⟨5, [0x01]⟩] ∧
+    Reasm.scanRest Serial.codec ([0x00, 0x13] ++ exFrame ++ [0xaa] ++ [0x55, 0x07, 0x00, 0x05]) = [0x55, 0x07, 0x00, 0x05] := by
+  decide +kernel
 
 end Nxs.C03
